@@ -123,8 +123,10 @@ func (tqs *TaskQueueSet) Iterate(doFn func(queue *TaskQueue)) {
 		return
 	}
 
-	main := tqs.GetMain()
-	if main != nil {
+	// Do not call GetMain here: it takes the read lock again and that
+	// deadlocks with a writer waiting between the two read locks.
+	main, exists := tqs.Queues[tqs.MainName]
+	if exists && main != nil {
 		doFn(main)
 	}
 	// TODO sort names
